@@ -42,3 +42,9 @@ package model
 //@   requires 0 <= s.idx && s.idx < len(s.samples)
 //@   modifies nothing
 //@   ensures result0 == s.samples[s.idx].TimestampMs && result1 == s.samples[s.idx].Value
+
+// Rows of the Tempo search responses carry all their documented keys for every value:
+// no option such as omitempty on them (a trace shorter than a millisecond would lose
+// its durationMs key). encoding/json reads the tags by reflection, so this is checked
+// on the declarations.
+//@ sweep jsontags [C15] TraceResponse.TraceID=traceID TraceResponse.RootServiceName=rootServiceName TraceResponse.RootTraceName=rootTraceName TraceResponse.StartTimeUnixNano=startTimeUnixNano TraceResponse.DurationMs=durationMs TraceInfo.TraceID=traceID TraceInfo.RootServiceName=rootServiceName TraceInfo.RootTraceName=rootTraceName TraceInfo.StartTimeUnixNano=startTimeUnixNano TraceInfo.DurationMs=durationMs TraceInfo.SpanSet=spanSet TraceInfo.SpanSets=spanSets SpanInfo.SpanID=spanID SpanInfo.StartTimeUnixNano=startTimeUnixNano SpanInfo.DurationNanos=durationNanos SpanInfo.Attributes=attributes SpanSet.Spans=spans SpanSet.Matched=matched
